@@ -262,6 +262,13 @@ func (n *Net) Count(name string, d int) {
 
 func (n *Net) countL(name string, d int) { n.Counters[name] += d }
 
+// Counter reads a named counter.
+func (n *Net) Counter(name string) int {
+	n.mu.Lock()
+	defer n.mu.Unlock()
+	return n.Counters[name]
+}
+
 // CountLocked is Count for code that already runs under the network lock (fault hooks).
 func (n *Net) CountLocked(name string, d int) { n.Counters[name] += d }
 
